@@ -7,10 +7,11 @@ _REAL = ["engine.EngineImpl: Assign/startRaftNode, WriteToRaft, SendRaftMessage,
          "meta.Data replication bookkeeping: CreateDBPtView/CreateDBReplication, UpdateNodeStatus, UpdatePtInfo, UpdateReplication, GetFailedPtInfos, replica-group status transitions"]
 _STUB = ["transport: simulated network on raftconn.RaftNode.ISend / Engine.SendRaftMessage (per-link queues; deliver, drop, duplicate, reorder, partition)",
          "clock: testing/synctest bubble (one virtual clock for all three nodes: no skew)",
-         "meta service and cluster manager: facade calling the real meta.Data methods; the master-election rule of cluster_manager.go (electRgMaster) is re-stated; hashicorp-raft/meta RPC not run",
+         "meta service and cluster manager: facade calling the real meta.Data methods (CreateDataNode, UpdateNodeStatus, CreateDBPtView/CreateDBReplication, CreateShardGroup, UpdatePtInfo, UpdateReplication, GetFailedPtInfos); the master-election rule of cluster_manager.go (electRgMaster) is re-stated; hashicorp-raft/meta RPC not run; the stores' catalogue caches are wire copies (MarshalBinary/UnmarshalBinary) refreshed at once, or - meta_lag cases - only when the clock moves",
          "coordinator: simulated client routing by the real GetAliveShards and retrying like points_writer.go",
          "StorageService: adapter re-stating ts-store storage.Write/WriteDataFunc", "SQL layer (reads are cursor requests as in world S)",
-         "etcd-raft election jitter: package-global source re-seeded per case through go:linkname (draw order across nodes is not controlled)"]
+         "etcd-raft election jitter: package-global source re-seeded per case through go:linkname (the nodes tick at distinct phases so that draws are ordered by virtual time)",
+         "process: every case runs in a child process of the worker (one process = one bubble = one case) because the engine's process-global pools of timers/channels cannot be shared between bubbles; a child that dies is reported as process_death"]
 
 import json as _json, os as _os
 # development aid: VERIF_P_OVERLAY='{"engine/x.go": "/abs/path/patched_x.go", ...}' builds world P against
@@ -31,19 +32,23 @@ PROPS = {
         "rule": "One case = seeded knobs (as world S, plus message drop/duplicate/reorder rates and the raft log sync interval) + a seeded list of scheduler steps: "
                 "client write batches with overwrites (synchronous, or left in flight), run the cluster for some virtual time, deliver a few messages only, "
                 "crash a node chosen by role (raft leader / master partition owner / follower; optionally losing the un-observed tail of its disk journal, "
-                "optionally with a torn last write), restart it on the crash image, isolate/heal a node, flush a node, read the master. At most one node is "
-                "down or isolated at a time. After every delivered message the committed prefixes of all live nodes are compared; after every acknowledgement "
+                "optionally with a torn last write), restart it on the crash image, isolate a node's raft links / pause a node (unreachable for clients too, failed "
+                "over by the meta service, resumed later) / heal, flush a node, read the master. Optionally the universe spans two shard groups (two shards per "
+                "partition, the second group created by the first write into it) and the stores' catalogue caches lag. At most one node is down, paused or "
+                "isolated at a time. After every delivered message the committed prefixes of all live nodes are compared; after every acknowledgement "
                 "and at read steps the master partition's shard is compared with the last-write-wins model; at the end faults stop, a probe write must commit "
                 "and all replicas must equal the model, then a further node is killed and the master is read again. Non-trivial = at least one crash and two "
                 "acknowledged writes; distinct = digest of knobs + steps.",
         "eval_extra": ["reads", "prefix_checks"],
         "probes": ["crash of the raft leader", "crash of the master partition owner", "crash with a write in flight", "crash that lost a journal tail",
-                   "restart replayed raft entries", "leader changed", "master partition changed", "write retried by the client"],
+                   "crash inside a memtable flush", "restart replayed raft entries", "leader changed", "master partition changed", "write retried by the client",
+                   "proposal forwarded to the leader", "shard group created by a write", "a write without acknowledgement took effect"],
         "assumptions": ["crash model = process kill; a crash image is the node's disk journal cut at or after the last instant at which the node sent a message or answered a client",
                         "one virtual clock for all nodes (no skew); timing is judged only after faults stop (B = 60 s for a probe write, B' = 60 s for replica convergence)",
-                        "a write the client got no acknowledgement for may take effect at any later time or never (per cell), nothing else is relaxed",
+                        "a write the client got no acknowledgement for (error, timeout, connection lost, still in flight) may take effect at any later time or never (per cell), nothing else is relaxed",
+                        "journal cuts do not split a group of raft.meta writes unless the case has split_meta (that is lib/raftlog's subject, C17); the order of file operations of concurrent goroutines inside one flush is a race in the code and not controlled",
                         "integers inside +-2^53, no NaN/Inf"],
-        "quick": {"runs": 420, "budget_s": 200, "workers": 14},
-        "thorough": {"runs": 9000, "budget_s": 2400, "workers": 16},
+        "quick": {"runs": 6000, "budget_s": 230, "workers": 14},
+        "thorough": {"runs": 36000, "budget_s": 2400, "workers": 16},
     },
 }
